@@ -238,6 +238,7 @@ func (ex *Exec) assign(st *State, lhs ast.Expr, v *Val) {
 			mt := x.T.Underlying().(*types.Map)
 			i = ex.assignConv(st, i, mt.Key(), l.Pos())
 			v = ex.assignConv(st, v, mt.Elem(), l.Pos())
+			ex.insertOnlyCheck(st, l, x, i)
 			nx := ex.mapStore(x, i, v)
 			ex.assignBack(st, l.X, nx)
 		default:
@@ -1394,4 +1395,29 @@ func joinNames(m map[string]bool) string {
 	}
 	sort.Strings(ks)
 	return strings.Join(ks, "; ")
+}
+
+
+// insertOnlyCheck: `insertonly pkg.Type.field` declares a shared table in which an entry, once present, is never
+// replaced: every store m[k] = v must be made knowing that k is absent. Checked where lock discipline is checked
+// (the interference model makes a presence test made in an earlier critical section worthless).
+func (ex *Exec) insertOnlyCheck(st *State, l *ast.IndexExpr, m, k *Val) {
+	if !ex.lockCheck || len(ex.eng.cs.InsertOnly) == 0 || m.Sh == nil || m.Sh.Kind != "map" {
+		return
+	}
+	loc := ex.place(st, l.X, nil)
+	if loc == nil || !loc.Heap || len(loc.Path) == 0 {
+		return
+	}
+	if !ex.eng.cs.InsertOnly[loc.TKey+"."+loc.Path[0]] {
+		return
+	}
+	mt, _ := m.T.Underlying().(*types.Map)
+	if mt != nil {
+		k = ex.coerceTo(k, mtKey(mt))
+	}
+	present := "(select " + m.kid("dom").S + " " + k.S + ")"
+	fresh := "(> " + loc.Ref + " " + ex.eng.alloc0() + ")"
+	ex.insertOnlyN++
+	ex.obligNamed(st, "held", fmt.Sprintf("insert-only(%s)#%d", loc.Path[0], ex.insertOnlyN), l.Pos(), or(not(present), fresh), "a store into "+loc.TKey+"."+loc.Path[0]+" must not replace an entry that is present (entries of this table are only ever added)")
 }
